@@ -291,3 +291,57 @@ func (m *Model) helperOperand(call *ast.CallExpr, base string) (ast.Expr, bool) 
 	}
 	return nil, false
 }
+
+
+// isRestoreUnit: a function or method that turns a leaf pointer back into the caller's key and
+// value: (unsafe.Pointer) → (K, V).
+func (m *Model) isRestoreUnit(u *FuncUnit) bool {
+	if u == nil || u.Obj == nil || u.Lit != nil {
+		return false
+	}
+	sig, _ := u.Obj.Type().(*types.Signature)
+	if sig == nil || sig.Params().Len() != 1 || sig.Results().Len() != 2 {
+		return false
+	}
+	b, ok := sig.Params().At(0).Type().Underlying().(*types.Basic)
+	if !ok || b.Kind() != types.UnsafePointer {
+		return false
+	}
+	_, isTP := types.Unalias(sig.Results().At(0).Type()).(*types.TypeParam)
+	return isTP
+}
+
+func (m *Model) isRestoreCall(call *ast.CallExpr) bool {
+	return m.isRestoreUnit(m.calleeUnit(call))
+}
+
+// restoreUnit: the restore function of a tree kind – its restoreKey method, or the function its
+// Minimum method (or a helper of it) hands leaves to.
+func (m *Model) restoreUnit(tk *TreeKind) *FuncUnit {
+	if u := tk.Methods["restoreKey"]; u != nil {
+		return u
+	}
+	var found *FuncUnit
+	for _, mn := range []string{"Minimum", "All"} {
+		mu := tk.Methods[mn]
+		if mu == nil {
+			continue
+		}
+		ast.Inspect(mu.Body, func(n ast.Node) bool {
+			var obj types.Object
+			switch x := n.(type) {
+			case *ast.Ident:
+				obj = m.Info.Uses[x]
+			case *ast.SelectorExpr:
+				obj = m.Info.Uses[x.Sel]
+			}
+			if f, ok := obj.(*types.Func); ok {
+				if u := m.ByObj[f.Origin()]; u != nil && m.isRestoreUnit(u) && found == nil {
+					found = u
+				}
+			}
+			return true
+		})
+	}
+	return found
+}
